@@ -208,7 +208,7 @@ pub fn run(ctx: &mut Ctx) {
         }
         let mut rng = ctx.rng.fork();
         let t = match i % 8 {
-            _ if i % 4001 == 7 && !ctx.miri => gen::big_doc(&mut rng),
+            _ if i % 4001 == 7 && !ctx.miri => gen::big_doc(&mut rng, true),
             0 => gen::deep(rng.below(50) + 1, rng.below(3) as u8, gen::doc(&mut rng, &gen::DocCfg { max_depth: 2, max_fan: 3, nonfinite: false, container_p: 3 })),
             1 => {
                 // random finite floats
